@@ -245,7 +245,9 @@ func (e *DNSEntry) decodeRRs(count int, p DNS, offset int, buffer []byte) (int, 
 			s := strings.TrimSuffix(string(name), ".in-addr.arpa")
 			tmp := net.ParseIP(s)
 			if tmp == nil {
-				return 0, false, fmt.Errorf("invalid PTR IP: %s", string(name))
+				// owner is not an IPv4 reverse name (ip6.arpa nibble name, DNS-SD service PTR, ...):
+				// a well-formed record this table does not use; skip it, keep decoding the message
+				break
 			}
 			if tmp = tmp.To4(); tmp == nil {
 				fmt.Printf("dns   : ignoring ptr ip6=%s\n", tmp)
